@@ -262,3 +262,27 @@ package tars
 //@   loop 1 invariant s != nil && s.manager != nil && msg != nil && msg.Ser == s && ctx.hasdl && s.ginv == old(s.ginv) + 1
 //@   loop 0 modifies everything
 //@   loop 1 modifies everything
+//
+// ------------------------------------------------------------------ choosing an endpoint (property C15)
+// SelectAdapterProxy: with a registry-fed servant that knows at least one endpoint, a call is always given
+// some adapter, also when the selector finds nothing active (every endpoint blocked): the random fall-back.
+// An adapter taken from the probe queue is returned with the probe flag set.
+//
+//@ pred epListOK(e) = forall k: iface {select(e.epList.val, k)} :: select(e.epList.dom, k) ==> (istype(select(e.epList.val, k), "*AdapterProxy") && ival(select(e.epList.val, k)) != nil)
+//
+//@ func NewAdapterProxy
+//@   trusted
+//@   allocates
+//@   ensures result != nil && fresh(result)
+//
+//@ func (*endpointManager).enableWeight
+//@   trusted
+//@   pure
+//
+//@ func (*endpointManager).SelectAdapterProxy
+//@   requires e != nil && msg != nil && e.rand != nil && epListOK(e)
+//@   requires e.activeEpRoundRobin != nil && e.activeEpConHash != nil && e.activeEpModHash != nil
+//@   noframe
+//@   allocates
+//@   ensures [C15] (!old(e.directProxy) && len(old(e.activeEpf)) > 0 && !result1) ==> result0 != nil
+//@   ensures [C15] (old(e.directProxy) && len(old(e.activeEp)) == 0) ==> result0 == nil
